@@ -329,6 +329,10 @@ def _timing(name, n):
         return 1900000 + 6 * i
     if name == "gaps":
         return np.cumsum(1 + (i % 4)) - 1
+    if name == "biggaps":             # uneven sampling far from the origin
+        return 2 ** 20 + np.cumsum(1 + (i % 4)) - 1
+    if name == "biggaps22":
+        return 2 ** 22 + np.cumsum(1 + (i * i % 5)) - 1
     raise ValueError(name)
 
 
@@ -627,6 +631,10 @@ def _mid_cases():
                     "h": False, "mv": False, "bw": bw})
         out.append({"pat": pat, "n": n, "var": var, "rot": rot, "t": "gaps",
                     "h": False, "mv": False, "bw": False})
+        if rot == 0:
+            for tn in ("biggaps", "biggaps22"):
+                out.append({"pat": pat, "n": n, "var": var, "rot": rot,
+                            "t": tn, "h": False, "mv": False, "bw": False})
         out.append({"pat": pat, "n": n, "var": var, "rot": rot, "t": "uni",
                     "h": True, "mv": False, "bw": False})
         if nan:
